@@ -27,6 +27,9 @@ pub enum Op {
     Reload { mode: u8 },
     /// creation request with an off-grid price: must be rejected without trace
     BadCreate { bid: bool, price: u32, vol: u32, place: bool },
+    /// read everything a caller can read (every getter, every order and trade record, a JSON
+    /// serialisation) and go on: looking must not change anything, now or later
+    Observe,
 }
 
 #[derive(Clone, Debug, PartialEq, Eq, Hash)]
@@ -93,6 +96,7 @@ impl Step {
             Op::Reload { .. } => {
                 "let book: OrderBook<LEVELS> = serde_json::from_str(&serde_json::to_string(&book).unwrap()).unwrap(); let mut book = book;".to_string()
             }
+            Op::Observe => "let _ = (book.bid_ask(), book.bid_vol(), book.ask_vol(), book.bid_best_vol_and_orders(), book.ask_best_vol_and_orders(), book.bid_levels(), book.ask_levels(), book.level_1_data(), book.level_2_data(), book.mid_price(), book.get_trade_vol(), book.get_orders().len(), book.get_trades().len(), serde_json::to_string(&book).unwrap());".to_string(),
             Op::BadCreate { bid, price, vol, place } => format!(
                 "assert!(book.{}({}, {}, TRADER, Some({})).is_err());",
                 if *place { "create_and_place_order" } else { "create_order" },
@@ -223,6 +227,11 @@ pub fn apply_real<const L: usize>(book: &mut OrderBook<L>, s: &Step) -> Ret {
             }
             Err(e) => Ret::ReloadFailed(e),
         },
+        Op::Observe => {
+            let _ = Snap::take(book);
+            let _ = serde_json::to_string(book);
+            Ret::Unit
+        }
         Op::BadCreate { bid, price, vol, place } => {
             let r = if *place {
                 book.create_and_place_order(side_of(*bid), *vol, trader_for(n), Some(*price))
@@ -289,6 +298,7 @@ pub fn apply_model(m: &mut RefModel, s: &Step) -> Ret {
             Ret::Unit
         }
         Op::Reload { .. } => Ret::Unit,
+        Op::Observe => Ret::Unit,
         Op::BadCreate { bid, price, vol, place } => {
             match m.create(*bid, *vol, trader_for(n), Some(*price)) {
                 Ok(i) => {
@@ -359,6 +369,9 @@ pub struct Profile {
     pub id_window: usize,
     /// trader id of the n-th order = trader_base + n
     pub trader_base: u32,
+    /// "read everything" offered as an operation of its own (histories are otherwise replayed
+    /// without a single getter call between the operations)
+    pub observe_op: bool,
 }
 
 impl Profile {
@@ -389,6 +402,7 @@ impl Profile {
             set_time_dt: 2,
             id_window: usize::MAX,
             trader_base: 100,
+            observe_op: false,
         }
     }
 
@@ -527,6 +541,9 @@ impl Profile {
         }
         for &mode in &self.reload_modes {
             v.push(Op::Reload { mode });
+        }
+        if self.observe_op {
+            v.push(Op::Observe);
         }
         if room {
             for &p in &self.offgrid_prices {
